@@ -152,7 +152,13 @@ func (z *Decimal) scan(r io.ByteScanner, base int) (f *Decimal, b int, err error
 		z.Mul(z, p.pow2(uint64(exp2)))
 	}
 	if excess != 0 && z.form == finite {
-		if int64(z.exp)+excess > MaxExp {
+		if e := int64(z.exp) + excess; e > MaxExp {
+			if e == MaxExp+1 && z.acc == makeAcc(!z.neg) && z.mant.isPow10() {
+				// the value is in range, only its rounding carried out
+				// of it: overflow, like any other rounding
+				z.form = inf
+				return
+			}
 			return nil, b, fmt.Errorf("exponent overflow")
 		}
 		z.exp += int32(excess)
